@@ -308,6 +308,7 @@ def check_case(data: dict, lab: Labels) -> None:
     b, root_e, ex = T.build(data["tree"])
     enodes = T.nodes_preorder(root_e)
     lives = [b.of(e) for e in enodes]
+    rich = [n for n in lives if type(n).__name__ in ("Vals", "Strs", "SerVals")]
     pats: list[dict] = []
     srcs: list[Any] = []
     for d in data["pats"]:
@@ -316,6 +317,8 @@ def check_case(data: dict, lab: Labels) -> None:
             srcs.append(lives[d[3] % len(lives)])
         else:
             node = lives[d[1] % len(lives)]
+            if d[1] % 2 and rich:  # every other derived pattern describes a node with many kinds of values
+                node = rich[(d[1] // 2) % len(rich)]
             pats.append(Abstractor(d[2]).tree(node, 2))
             srcs.append(node)
     texts = [P.render(p, 0) for p in pats]
@@ -325,6 +328,7 @@ def check_case(data: dict, lab: Labels) -> None:
         require(m is not None, "wellformed-pattern-rejected", f"{text!r}: {msg}")
         targets = [src] + [lives[(k + pi) % len(lives)] for k in data["others"]]
         feats = features(p)
+        lab.tag_if('@sk="' in text, "regex-on-str-enum-value")
         res_for_p = []
         for node in targets:
             exp_ok, exp_caps = P.ref_match(p, node, {}, is_node, isinstance_of)
@@ -373,6 +377,7 @@ def check_case(data: dict, lab: Labels) -> None:
             seen.append(i)
     defs = [(f"r{i}", texts[i]) for i in seen]
     mm = MultiPatternMatcher(defs)
+    k_multi = 0
     for node in [srcs[0], lives[data["others"][0] % len(lives)], lives[0]]:
         for rules in (None, [f"r{i}" for i in reversed(seen)], [f"r{seen[-1]}"]):
             names = [f"r{i}" for i in seen] if rules is None else rules
@@ -383,7 +388,14 @@ def check_case(data: dict, lab: Labels) -> None:
                 if ok:
                     exp = (rn, caps)
                     break
-            got = mm.match(node, rules=rules)
+            # `rules` is any iterable of names: list, tuple, one-shot iterator, generator, dict view
+            how = (data["order"][0] + len(names) + k_multi) % 5 if rules is not None else 0
+            k_multi += 1
+            passed: Any = rules
+            if rules is not None:
+                passed = [rules, tuple(rules), iter(rules), (r for r in rules), dict.fromkeys(rules).keys()][how]
+                lab.tag_if(how in (2, 3), "multi-rules-one-shot-iterator")
+            got = mm.match(node, rules=passed)
             if exp is None:
                 require(got is None, "multi-no-rule-should-match", f"{defs} rules={rules}: {got!r:.200}")
             else:
@@ -395,7 +407,7 @@ def check_case(data: dict, lab: Labels) -> None:
 
 
 def st_case(ctx: Ctx):
-    g = T.TreeGen(leaves=ctx.pick(8, 12), origin_rate=0.3, falsy=True, extra_leaves=("Vals", "Strs"))
+    g = T.TreeGen(leaves=ctx.pick(8, 12), origin_rate=0.3, falsy=True, extra_leaves=("Vals", "Vals", "Strs"))
     raw = st.tuples(st.just("raw"), st_raw_pattern(), st.integers(0, 1000), st.integers(0, 60)).map(list)
     derived = st.tuples(st.just("derived"), st.integers(0, 60), st.integers(0, 2**31)).map(list)
     return st.fixed_dictionaries(
